@@ -4,6 +4,7 @@ import (
 	"os"
 
 	"github.com/apache/skywalking-banyandb/banyand/measure"
+	"github.com/apache/skywalking-banyandb/banyand/stream"
 )
 
 // runAckProbe observes the acknowledgement mechanism of the standalone write path in isolation: the writer must stay
@@ -39,4 +40,53 @@ func runAckProbe(c *collector) {
 		_ = os.RemoveAll(dir)
 	}
 	c.Outcomes["ack-probe/writer-parked-until-applied"]++
+	runAckOrderProbe(c)
+}
+
+// runAckOrderProbe observes the introducer side (round 2, seeded change C01-6 closed `applied` before the snapshot
+// swap): with the publication lock held by a reader, the real introducePart is run until it is queued for the write
+// lock; at that instant the batch must not be acknowledged yet (measure.V1AckOrderProbe / stream.AckOrderProbe — the
+// only lock acquisition of introducePart is the hold point, so this is every position at which a query can still see
+// the old snapshot). Same batch sizes, fresh table and after a previous batch.
+func runAckOrderProbe(c *collector) {
+	c.stage = "mem"
+	msc := measureV1Schema(measureCols)
+	ssc := streamSchema(streamCols)
+	for _, n := range []int{1, 3, 300} {
+		ss := make([]series, 0, n)
+		for i := 0; i < n; i++ {
+			ss = append(ss, series{Gen: "seq", Seq: []int{(i % (maxAlpha - 1)) + 1}})
+		}
+		md := &dataset{name: "probe", cols: measureCols, ss: number(ss), t0: inpkgT0, step: 1_000_000}
+		sd := &dataset{name: "probe", cols: streamCols, ss: number(ss), t0: inpkgT0, step: 1_000_000}
+		mdir, sdir := scratchDir("p"), scratchDir("p")
+		mt := measure.VOpen(mdir, nil)
+		st := stream.C01Open(sdir)
+		for round := 0; round < 2; round++ {
+			pts := measurePoints(md, 0)
+			for i := range pts {
+				pts[i].T += int64(round) * 1_000_000
+			}
+			c.Counts["ack_order_probes"]++
+			if mt.V1AckOrderProbe(msc, pts) {
+				c.report("ack-before-visible path=inpkg-measure: introducePart acknowledged the batch (closed `applied`) before it published the snapshot that contains it",
+					map[string]any{"dataset": "probe", "points": n, "round": round, "probe": "ack-order"})
+			}
+			els := streamElements(sd, 0)
+			for i := range els {
+				els[i].T += int64(round) * 1_000_000
+				els[i].EID += uint64(round) * 1_000_000_000
+			}
+			c.Counts["ack_order_probes"]++
+			if st.AckOrderProbe(ssc, els) {
+				c.report("ack-before-visible path=inpkg-stream: introducePart acknowledged the batch (closed `applied`) before it published the snapshot that contains it",
+					map[string]any{"dataset": "probe", "points": n, "round": round, "probe": "ack-order"})
+			}
+		}
+		mt.Close()
+		st.Close()
+		_ = os.RemoveAll(mdir)
+		_ = os.RemoveAll(sdir)
+	}
+	c.Outcomes["ack-probe/applied-closed-only-after-publication"]++
 }
